@@ -578,6 +578,14 @@ class ServeMpsMedia(MediaRequestBase):
                 start_time * representation.timescale / timing_ref.timescale))
         if seg_time is not None:
             start_time += seg_time
+            if (
+                    mode != 'live' and
+                    representation.mediaDuration is not None and
+                    start_time >= representation.mediaDuration):
+                # get_segment_index() would wrap around to the start of
+                # the file. (The times of a live stream count from
+                # availabilityStartTime and rely on that wrap around)
+                raise ValueError('Segment beyond end of media')
         mod_seg, seg_start_tc, origin_time = representation.get_segment_index(
             start_time)
 
